@@ -257,7 +257,7 @@ impl Model {
 
 fn ident_of(io: &MioStream, uds: bool) -> String {
     match io {
-        MioStream::Tcp(s) => format!("tcp:{}", s.peer_addr().map(|a| a.to_string()).unwrap_or_else(|e| format!("?{e}"))),
+        MioStream::Tcp(s) => format!("tcp:{}->{}", s.peer_addr().map(|a| a.to_string()).unwrap_or_else(|e| format!("?{e}")), s.local_addr().map(|a| a.to_string()).unwrap_or_else(|e| format!("?{e}"))),
         MioStream::Uds(s) => {
             // identity of a UDS client = the 4 id bytes it wrote right after connect
             let _ = uds;
@@ -382,7 +382,7 @@ impl Engine {
             LAddr::Tcp(a) => std::net::TcpStream::connect(a).and_then(|s| {
                 // close with RST: no TIME_WAIT, otherwise thousands of cases exhaust the ephemeral ports
                 socket2::SockRef::from(&s).set_linger(Some(Duration::ZERO))?;
-                let ident = format!("tcp:{}", s.local_addr()?);
+                let ident = format!("tcp:{}->{}", s.local_addr()?, a);
                 Ok((Sock::Tcp(s), ident))
             }),
             LAddr::Uds(p) => std::os::unix::net::UnixStream::connect(p).and_then(|mut s| {
